@@ -475,6 +475,7 @@ type callRun struct {
 	eofReads   int
 	pending    []byte
 	promptLast string
+	free       *FreeSpec
 }
 
 func (w *worker) runJob(job *Job) (tr *Trace) {
@@ -736,6 +737,7 @@ func (w *worker) runJob(job *Job) (tr *Trace) {
 		}
 		run.answers, run.idx, run.waits, run.nwaits, run.log, run.eofReads, run.pending = answers, 0, nil, 0, nil, 0, nil
 		run.want = job.Want
+		run.free = job.Free
 		w.mu.Lock()
 		w.raw = w.raw[:0]
 		w.mu.Unlock()
@@ -865,6 +867,29 @@ func (w *worker) runCall(run *callRun) (c Call) {
 			c.After = &wt
 		}
 	}()
+	if run.free != nil {
+		stop := make(chan struct{})
+		defer close(stop)
+		go func(f FreeSpec, sh *readline.Shell) {
+			for i := 0; i < f.Winch+f.Printf; i++ {
+				select {
+				case <-stop:
+					return
+				case <-time.After(time.Duration(f.EveryMicros) * time.Microsecond):
+				}
+				if i%2 == 0 && i/2 < f.Winch || i/2 >= f.Printf {
+					cols := uint16(40)
+					if i%4 == 0 {
+						cols = 30
+					}
+					unix.IoctlSetWinsize(w.master, unix.TIOCSWINSZ, &unix.Winsize{Row: 12, Col: cols})
+					syscall.Kill(os.Getpid(), syscall.SIGWINCH)
+				} else {
+					go sh.Printf("async %d", i)
+				}
+			}
+		}(*run.free, run.sh)
+	}
 	line, err := run.sh.Readline()
 	c.Outcome = "returned"
 	c.Line = line
